@@ -41,5 +41,22 @@ ParamOrders ==
 ValueLattice ==
     UNION {{SentCase(c, sv, "value-lattice", F) : sv \in OneAtATime(CommandTable[c].schema, F, TRUE)} : c \in {1, 2, 6, 10, 12}}
 
-MC_Cases == TopSubsets \cup NestedSubsets \cup FullRequests \cup SubCommands \cup ParamOrders \cup ValueLattice
+\* every PAIR of parameters at every combination of the extremes of their types
+PairLattice ==
+    UNION {{SentCase(c, sv, "pair-lattice", F) : sv \in TwoAtATime(CommandTable[c].schema, F, TRUE)} : c \in {1, 2, 6, 10, 12}}
+    \cup {SentCase(10, [CmReqMin EXCEPT !.subCommandParams = <<p>>], "pair-lattice-nested", F) : p \in TwoAtATime("CmParams", F, TRUE)}
+    \cup {SentCase(1, [McReqMin EXCEPT !.user = u], "pair-lattice-nested", F) : u \in TwoAtATime("User", F, TRUE)}
+    \cup {SentCase(2, [GaReqMin EXCEPT !.extensions = <<[GaExtInMin EXCEPT !.hmacSecret = <<h>>]>>], "pair-lattice-nested", F) : h \in TwoAtATime("HmacIn", F, TRUE)}
+
+\* a full-length descriptor list with one different entry at every position
+OddDesc == [id |-> Pattern(99, 300), type |-> AsciiPattern(9, 40)]
+PositionCases ==
+    {SentCase(2, [GaReqMin EXCEPT !.allowList = <<ListWithOddOneAt(T_Struct("DescRef"), 10, k, OddDesc, F, TRUE)>>, !.options = <<AuthOptsFull>>],
+              "list-position", F) : k \in 1..10}
+    \cup {SentCase(1, [McReqMin EXCEPT !.excludeList = <<ListWithOddOneAt(T_Struct("DescRef"), 16, k, OddDesc, F, TRUE)>>, !.options = <<AuthOptsFull>>],
+                   "list-position", F) : k \in 1..16}
+    \cup {SentCase(1, [McReqMin EXCEPT !.pubKeyCredParams = [i \in 1..12 |-> IF i = k THEN ParamOf(ALG_EdDSA) ELSE IF i = j THEN ParamOf(ALG_ES256) ELSE ParamOf(-256 - i)],
+                                       !.options = <<AuthOptsFull>>], "list-position", F) : k \in {1, 2, 6, 11, 12}, j \in {1, 3, 12}}
+
+MC_Cases == TopSubsets \cup NestedSubsets \cup FullRequests \cup SubCommands \cup ParamOrders \cup ValueLattice \cup PairLattice \cup PositionCases
 =============================================================================
